@@ -68,7 +68,11 @@ class StockGen:
         s = r.choice(["v", "two words", "it's", 'say "hi"', "%", "a}b", "{", "x y z", "", "two  spaces", " lead", "tab\there"])
         q = r.choice(["'", '"'])
         if q in s:
-            s = s.replace(q, "")
+            # the other quote kind is dropped, or (as often) kept as a backslash-escaped quote
+            s = s.replace(q, "\\" + q if r.random() < 0.5 else "")
+        if r.random() < 0.15:
+            # backslash escapes: inside the string, and an escaped backslash right before the closing quote (seeded/C10-3)
+            s = r.choice(["a\\\\b", s + "\\\\", "\\\\", "C:\\\\", "x\\\\" + "\\" + q + "y"])
         return q + s + q
 
     def expr(self):
